@@ -108,7 +108,41 @@ class C05(Prop):
         if isinstance(out, dict) and "panic" in out:
             ctx.count("panic")
         cfg = g_cfg(case["full"], case["nm"], case["cb"], True, case["ev_nomatch"])
+        if not self.details_ok(ctx, case, out, mem):
+            return (False, False, 0)
         return "C05_case %s %s %s %s" % (cfg, ruleset.g_scanner(rs), ruleset.g_inputs(rs, mem), o)
+
+    @staticmethod
+    def details_ok(ctx, case, out, mem):
+        """Variable alignment, observed: every reported rule lists only its own strings, and every reported match
+        is an occurrence of that very string (all of them when full matches are computed)."""
+        rs = case["rs"]
+        reported = list(out.get("rules", [])) + [e["rule"] for e in out.get("events", []) if e.get("ev") in ("match", "nomatch")]
+        for r in reported:
+            decl = next((x for x in rs["rules"] if "ns%d" % x["ns"] == r["ns"] and x["name"] == r["name"]), None)
+            if decl is None:
+                ctx.notes.append("reported rule %s:%s is not declared" % (r["ns"], r["name"]))
+                return False
+            own = {n: bytes(p) for n, p in decl["strings"]}
+            for s in r["strings"]:
+                if s["name"] not in own:
+                    ctx.notes.append("rule %s reports string $%s which it does not declare" % (r["name"], s["name"]))
+                    return False
+                exp = set(cond.find_all(mem, own[s["name"]]))
+                got = [m["offset"] for m in s["matches"]]
+                if not set(got) <= exp or (case["full"] and set(got) != exp) or len(got) != len(set(got)):
+                    ctx.notes.append("rule %s string $%s: reported offsets %s, occurrences %s" % (r["name"], s["name"], got, sorted(exp)))
+                    return False
+                if any(m["length"] != len(own[s["name"]]) or bytes.fromhex(m["data"]) != own[s["name"]][:len(bytes.fromhex(m["data"]))]
+                       for m in s["matches"]):
+                    ctx.notes.append("rule %s string $%s: a match record is not an occurrence of that string" % (r["name"], s["name"]))
+                    return False
+            if case["full"] and not r.get("_skip"):
+                missing = [n for n, p in own.items() if cond.find_all(mem, p) and n not in [s["name"] for s in r["strings"]]]
+                if missing:
+                    ctx.notes.append("rule %s does not list its matching strings %s" % (r["name"], missing))
+                    return False
+        return True
 
     def nontrivial(self, case, out):
         rs = case["rs"]["rules"]
